@@ -25,10 +25,13 @@ Definition stored_values (h : host) (t : gdtype) (e : codec) (s : sexflags) (buf
   | Text => raw_decode h t SexZero buf
   end.
 
-(* one buffer-load: move.c:247-252 calls _GD_FixEndianness(buffer, n, type,
-   old fragment sex, new sex) unconditionally *)
+(* the byte order in which a codec's reader delivers and its writer expects the buffer *)
+Definition buf_sex (e : codec) (s : sexflags) : sexflags := match e with Bin => s | Text => SexZero end.
+
+(* one buffer-load: move.c calls _GD_FixEndianness(buffer, n, type,
+   ECOR(enc_in) ? old fragment sex : 0, ECOR(enc_out) ? new sex : 0)  (since fix 7a4fcd5) *)
 Definition mogrify_chunk (h : host) (t : gdtype) (ein eout : codec) (sin sout : sexflags) (vs : list sample) : list byte :=
-  fix_endianness h t sin sout (read_buf h t ein sin vs).
+  fix_endianness h t (buf_sex ein sin) (buf_sex eout sout) (read_buf h t ein sin vs).
 
 (* the copy loop: ns samples per iteration *)
 Fixpoint split_chunks {A} (fuel : nat) (ns : nat) (l : list A) : list (list A) :=
@@ -53,13 +56,17 @@ Definition shift_file {A} (zero : A) (delta : Z) (spf : nat) (vs : list A) : lis
 Definition abs_sample {A} (zero : A) (off : Z) (spf : nat) (vs : list A) (k : Z) : A :=
   if (k <? off * Z.of_nat spf)%Z then zero else nth (Z.to_nat (k - off * Z.of_nat spf)) vs zero.
 
-(* RAW type change with recoding (mod.c:437-470): the bytes of the old file are
-   handed to _GD_ConvertType as they are, the result is written as it is *)
+(* RAW type change with recoding (mod.c, since fix f6e3d09): for an ECOR codec the
+   buffer is brought to native order, converted, and brought back to the fragment's order *)
 Section Retype.
   Variable conv : sample -> sample.      (* C06's conversion old type -> new type on values *)
+  Definition ecor (e : codec) : bool := match e with Bin => true | Text => false end.
   Definition retype_values (h : host) (t t' : gdtype) (e : codec) (s : sexflags) (vs : list sample) : list sample :=
-    let mem := raw_decode h t SexZero (read_buf h t e s vs) in       (* buffer read as native values *)
+    let buf := read_buf h t e s vs in
+    let buf := if ecor e then fix_endianness h t s SexZero buf else buf in
+    let mem := raw_decode h t SexZero buf in                         (* native values *)
     let out := raw_layout h t' SexZero (map conv mem) in             (* converted, in native order *)
+    let out := if ecor e then fix_endianness h t' SexZero s out else out in
     stored_values h t' e s out.
 End Retype.
 
